@@ -3,6 +3,8 @@
   is `ImplGroupId [trait path with its arguments, self type]`; a query is a ground header.
 -/
 import DisjointImpls.Lemmas.Refine
+import DisjointImpls.Lemmas.ExpandItems
+import DisjointImpls.Props.C01
 namespace DI
 
 /-- instantiation acts component-wise on a header -/
@@ -70,5 +72,162 @@ example :
   · intro ρ h
     simp only [inst_other ρ (k := "Tr") (by rfl), instL, inst_leaf] at h
     simp at h
+
+/-! ## The generators: trait arguments of the main impl and the replacement of the trait's parameters
+  (`Lemmas/ExpandItems.lean`; model: `mainImplOfTrait`, `resolveMainTrait`, `zipTraitArgs`, `sbT` of `Expand.lean`) -/
+
+/-- THE MAIN IMPL IMPLEMENTS THE TRAIT AT THE FAMILY'S ARGUMENTS. If `mainImplOfTrait tr idx g = .ok m` then the trait path of
+    `m` is, node for node, the trait path `tp` of the family's first block — `Trait<args>` with its lifetime, type and const
+    arguments unchanged — which for a well-formed family (`expandWF`, executable) is the trait path of the group id; and the
+    helper reference `href` that the where-clause bounds `Self` by passes exactly: the lifetime arguments of `tp` (unchanged,
+    in order), then one projection `<bounded as Trait>::Assoc` per dispatch key, then the remaining arguments of `tp`
+    (unchanged, in order). -/
+theorem C16_main_impl_trait_args (tr : T) (idx : Nat) (g : T × ABG × List Blk) (m : T)
+    (hm : mainImplOfTrait tr idx g = .ok m) :
+    ∃ tp href, implTraitPath (firstItem_inh g) = some tp ∧ XOK.traitPathOf m = some tp ∧ implTraitPath m = some tp ∧
+      (expandWF g = true → XOK.kid g.1 0 = .node "Some" [] [tp]) ∧
+      mainHref_inh m = some href ∧
+      XOK.segArgs (XOK.lastSeg href) =
+        (traitArgsOf_it tp).filter isLifetimeArg ++
+        g.2.1.idents.map (fun kx => gaType (projection kx.1.1 kx.1.2 kx.2)) ++
+        (traitArgsOf_it tp).filter (fun a => !isLifetimeArg a) := by
+  obtain ⟨first, rest, tp, st, unsafety, lt, gt, wc, x0, params, items, tname, targs, finals, hg, hp, hs, hres, hlast, hf, rfl⟩ :=
+    mainImplOfTrait_items_inv_it hm
+  have hfirst : firstItem_inh g = first.item := by simp [firstItem_inh, hg]
+  refine ⟨tp, _, by rw [hfirst]; exact hp, by simp [XOK.traitPathOf, XOK.kid, XOK.kids, XOK.kind, tSome], rfl, ?_,
+    mainHref_main_it _ _ _ _ _ _ _ _ _ _ _ _, ?_⟩
+  · intro hwf
+    simp only [expandWF, Bool.and_eq_true, hg, beq_iff_eq] at hwf
+    rw [hwf.1.2]
+    simp [mkHdr, hp, hs, XOK.kid, XOK.kids]
+  · simp [mainHrefOf_it, helperRef, XOK.lastSeg, XOK.segsOf, pathNode, tList, XOK.kid, XOK.kids, XOK.lastOf, seg, XOK.segArgs,
+      angle, XOK.kind]
+
+/-- WHAT `resolve_main_trait_params` DOES TO THE TRAIT'S ITEMS: `sbT am`, where the argument map `am` (`mainArgMap_it`,
+    `zipTraitArgs`) pairs the trait's parameters with the family's trait arguments position by position. For every map `am`:
+    (a) a lifetime that names a lifetime parameter becomes the argument lifetime, any other lifetime is kept;
+    (b) a type parameter in type position becomes its argument;
+    (c) a path starting with a type parameter, `U::Assoc…`, becomes `<arg>::Assoc…`;
+    (d) a const parameter as a bare identifier in expression position becomes the WHOLE argument expression (fix 1001a0e),
+        parenthesised unless it is a path, a literal, a block or a parenthesised expression;
+    (e) every node that is not a lifetime, a type path or an expression path (and not an ignored child) is rebuilt around
+        its rewritten children — nothing else happens anywhere;
+    (f) NOTHING ELSE CHANGES: a tree that mentions no parameter of the map (`sbFree_it`, executable) is returned unchanged;
+    (g) the map has exactly one entry per zipped (parameter, argument) pair — `min(#parameters, #arguments)` entries: a
+        parameter beyond the last argument (an omitted default, finding D17) has no entry, so by (f) its occurrences stay;
+    (h) a const parameter facing a type argument (a bare identifier `N` is a type to `syn`, finding D24) has no map at all
+        (`unreachable!()`). -/
+theorem C16_trait_param_replacement (am : ArgMap) :
+    (∀ (as : List String) (x : String), sbT am (.node "Lifetime" as [.node "Ident" [x] []]) =
+        some ((alookup am.lt x).getD (.node "Lifetime" as [.node "Ident" [x] []]))) ∧
+    (∀ (x : String) (r : T), alookup am.ty x = some r → sbT am (mkTypeIdent x) = some r) ∧
+    (∀ (as : List String) (x : String) (r s1 : T) (rest : List T), alookup am.ty x = some r →
+        sbFreeL_it am (s1 :: rest) = true →
+        sbT am (.node "Type::Path" as [tNone, pathNode noLead (seg x :: s1 :: rest)]) =
+          some (.node "Type::Path" as [tSome (.node "QSelf" [] [r, .node "Atom" ["0"] [], tNone]), pathNode someLead (s1 :: rest)])) ∧
+    (∀ (x : String) (e : T), alookup am.ty x = none → alookup am.co x = some e → sbT am (identExpr x) = some (exprOperand e)) ∧
+    (∀ (k : String) (as : List String) (ks : List T), NodeOther k ks → sbT am (.node k as ks) = (sbL am ks).map (.node k as)) ∧
+    (∀ t : T, sbFree_it am t = true → sbT am t = some t) ∧
+    (∀ ps args : List T, zipTraitArgs ps args = some am →
+        am.lt.length + am.ty.length + am.co.length = min ps.length args.length) ∧
+    (∀ cp ta ps args : List T,
+        zipTraitArgs (.node "GenericParam::Const" [] cp :: ps) (.node "GenericArgument::Type" [] ta :: args) = none) :=
+  ⟨sbT_lifetime_it am, sbT_type_occurrence_it am, sbT_type_projection_it am, sbT_const_occurrence_it am,
+   fun _ as _ h => sbT_of_other_it am as h, sbT_free_it am, fun ps args h => zipTraitArgs_size_it ps args am h,
+   zipTraitArgs_const_vs_type_it⟩
+
+/-- finding D17 in general: a parameter of the trait beyond the last argument of the family's trait path (an omitted
+    default) whose name no parameter that does have an argument carries is not in the argument map, and its occurrences
+    in type position are left as they are — the main impl then mentions a name it does not declare
+    (`C16_omitted_default_counterexample`). The side condition is executable. -/
+theorem C16_omitted_parameter_unresolved (ps args : List T) (am : ArgMap) (h : zipTraitArgs ps args = some am) (x : String)
+    (hx : ((ps.take args.length).map paramIdent).contains (some x) = false) :
+    am.has_it x = false ∧ sbT am (mkTypeIdent x) = some (mkTypeIdent x) := by
+  have hno : am.has_it x = false := by
+    cases hh : am.has_it x with
+    | false => rfl
+    | true =>
+      have := zipTraitArgs_keys_it ps args am h x hh
+      rw [← List.contains_iff_mem, hx] at this
+      cases this
+  refine ⟨hno, sbT_unmapped_type_it am x ?_⟩
+  simp only [ArgMap.has_it, Bool.or_eq_false_iff] at hno
+  cases hl : alookup am.ty x with
+  | none => rfl
+  | some r => rw [hl] at hno; simp at hno
+
+section ParamExamples
+set_option maxRecDepth 1000000
+open ExIt
+
+/-- the argument map of the example `trait Kita<'a, U, const N: usize>` at `Kita<'_ŠČ0, Vec<_ŠČ1>, { 2 }>` -/
+def exArgMap : ArgMap := ⟨[("a", ltNode "_ŠČ0")], [("U", Ex11.vecOf (.tparam "_ŠČ1"))], [("N", blockExpr "2")]⟩
+
+/-- non-vacuity of `C16_main_impl_trait_args` and `C16_trait_param_replacement` on the example of `C01_items_example`
+    (`trait Kita<'a, U, const N: usize>` implemented as `Kita<'x, Vec<T>, { 2 }>`): the generators succeed and the family is
+    well-formed; the argument map of the family is `'a ↦ '_ŠČ0, U ↦ Vec<_ŠČ1>, N ↦ { 2 }`; the three items are resolved; the
+    helper reference passes `'_ŠČ0` first, then one projection, then `Vec<_ŠČ1>` and `{ 2 }`; the hypotheses of (b), (d), (f)
+    hold for `U`, `N` and the type `usize`, and `sbFree_it` is not vacuous (it rejects the trait's function item) -/
+theorem C16_param_example : ExIt.run traitDef [memberA, memberB] (fun g _ _ m =>
+    expandWF g &&
+    (match implTraitPath (firstItem_inh g) with
+     | some tp =>
+        (match mainArgMap_it traitDef tp with
+         | some am => am.lt == exArgMap.lt && am.ty == exArgMap.ty && am.co == exArgMap.co &&
+             (sbL am (traitItemsOf_it traitDef)).isSome
+         | none => false) &&
+        (traitArgsOf_it tp).map isLifetimeArg == [true, false, false] &&
+        ((mainHref_inh m).map (fun h => (XOK.segArgs (XOK.lastSeg h)).map isLifetimeArg)) == some [true, false, false, false] &&
+        XOK.traitPathOf m == some tp
+     | none => false) &&
+    alookup exArgMap.ty "U" == some (Ex11.vecOf (.tparam "_ŠČ1")) && alookup exArgMap.ty "N" == none &&
+    alookup exArgMap.co "N" == some (blockExpr "2") && sbFree_it exArgMap (tyS "usize") &&
+    (traitItemsOf_it traitDef).map (sbFree_it exArgMap) == [true, true, false]) = true := by
+  with_unfolding_all decide
+
+/-- finding D17 (main_trait.rs `resolve_main_trait_params`, `zip` of parameters and arguments): a defaulted trait
+    parameter whose argument is omitted stays unresolved. Witness: `trait Kita<U, V = u32> { fn f(&self, x: V); }` with the
+    blocks `impl<T: Dispatch<Group = g>> Kita<T> for T { fn f(&self, x: u32) {} }` — the family is well-formed and the
+    generators succeed; the argument map has one entry (`U`) and the side condition of
+    `C16_omitted_parameter_unresolved` holds for `V`; the main impl implements `Kita<_ŠČ0>` and declares only `_ŠČ0`,
+    but its function is `fn f(&self, x: V)`: the parameter type is still the trait's parameter `V`, which names nothing in
+    the impl (rustc: cannot find type `V`). So "every occurrence of a trait parameter is replaced" holds only for
+    parameters that have an argument (`C16_trait_param_replacement` (g)). -/
+theorem C16_omitted_default_counterexample : ExIt.run d17Trait [d17Member "GroupA", d17Member "GroupB"] (fun g _ _ m =>
+    g.2.2.length == 2 && expandWF g &&
+    (match implTraitPath (firstItem_inh g) with
+     | some tp => (match mainArgMap_it d17Trait tp with
+         | some am => am.lt.isEmpty && am.ty.map (fun p => p.1) == ["U"] && am.co.isEmpty
+         | none => false)
+     | none => false) &&
+    (traitParams_inh d17Trait).map pname_inh == ["U", "V"] &&
+    (match implTraitPath (firstItem_inh g) with
+     | some tp => !(((traitParamsOf_it d17Trait).take (traitArgsOf_it tp).length).map paramIdent).contains (some "V")
+     | none => false) &&
+    (genericsParams (XOK.kid m 3)).map pname_inh == ["_ŠČ0"] &&
+    (implItems m).map (fun it => XOK.kid (XOK.kid it 3) 6) == [.node "List" [] [recv, typedArg "x" (tyS "V")]]) = true := by
+  with_unfolding_all decide
+
+/-- finding D24: a const trait parameter instantiated with a BARE const identifier. Witness:
+    `trait Kita<const N: usize> { fn f(&self) -> [u8; N]; }` with the blocks
+    `impl<T: Dispatch<Group = g>, const M: usize> Kita<M> for T { … }` — the front end forms the family (two members), the
+    argument `M` is a type argument to `syn`, there is no argument map and `main_trait::generate` reaches `unreachable!()`:
+    the model's main impl is `panic`. With the braced spelling `Kita<{ M }>` the same invocation expands, and the return
+    type of `f` is `[u8; { _ŠČ0 }]` (the whole argument expression). -/
+theorem C16_bare_const_argument_counterexample :
+    (match parseGroups [d24Member "GroupA", d24Member "GroupB"] with
+     | .ok (g :: _) => g.2.2.length == 2 && expandWF g &&
+         (match implTraitPath (firstItem_inh g) with
+          | some tp => (mainArgMap_it d24Trait tp).isNone
+          | none => false) &&
+         (match mainImplOfTrait d24Trait 0 g with | .panic => true | _ => false)
+     | _ => false) = true ∧
+    ExIt.run d24Trait [d24MemberBraced "GroupA", d24MemberBraced "GroupB"] (fun g _ _ m =>
+      g.2.2.length == 2 && expandWF g &&
+      (implItems m).map (fun it => XOK.kid (XOK.kid it 3) 8) ==
+        [retTy (arrTy (tyS "u8") (.node "Expr::Block" [] [Ex11.attrs, Ex11.leaf "None", blockOf [stmtExpr (.eparam "_ŠČ0")]]))]) = true := by
+  constructor <;> with_unfolding_all decide
+
+end ParamExamples
 
 end DI
